@@ -23,12 +23,19 @@ type Event struct {
 type Trace struct {
 	mu sync.Mutex
 	ev []Event
+	// Mirror, if set, sees every event right after it was recorded (used to merge the API events
+	// into the implementation-level hook stream of steered single-client runs).
+	Mirror func(Event)
 }
 
 func (t *Trace) Add(e Event) {
 	t.mu.Lock()
 	t.ev = append(t.ev, e)
+	m := t.Mirror
 	t.mu.Unlock()
+	if m != nil {
+		m(e)
+	}
 }
 
 func (t *Trace) Len() int {
